@@ -65,7 +65,7 @@ def verify_keymap() -> None:
 
 
 def rs_setup_ops(scn: Dict[str, Any], slot: int = 0) -> List[list]:
-    ops: List[list] = [["m.new", slot, {"por": bool(scn.get("por"))}]]
+    ops: List[list] = [["m.new", slot, {"por": bool(scn.get("por")), "pce500_map": bool(scn.get("pce500_map"))}]]
     rom = [0] * ROM_SIZE
     tail = scn["prog"]["rom_tail"]
     rom[ROM_SIZE - 6:] = tail
